@@ -11,9 +11,9 @@
     configuration says; the helper describes the strings xtl returned (per component: length, class, hash).
  3. TLC validates the recorded trace against InstallPath.tla (InstallPathTrace): L1 is the oracle.
 """
-import json, os, random, shutil, subprocess, sys
+import json, os, random, shutil, subprocess, sys, threading
 from concurrent.futures import ThreadPoolExecutor
-from vlib import core
+from vlib import core, tables
 from vlib.core import MachineryError
 
 HC20 = os.path.join(core.HARNESS, "c20")
@@ -37,8 +37,19 @@ def hash30(b):
 
 
 def cls_of(b):
+    """description of a name; the same function as cls_of in harness/c20/helper.cpp (first match wins)"""
     if any(c >= 0x80 for c in b):
-        return "utf8"
+        return "utf8" if any(c < 0x80 for c in b) else "mb"
+    if any((c < 0x20 and c != 9) or c == 0x7f for c in b):
+        return "ctrl"
+    if b.endswith(b" (deleted)"):
+        return "delsfx"
+    if b[:1] == b" " or b[-1:] == b" ":
+        return "edge"
+    if b[:2] == b".." or b[-1:] == b".":
+        return "dots"
+    if b[:1] in (b"-", b"."):
+        return "lead"
     if any(c in PUNCT for c in b):
         return "punct"
     if b" " in b:
@@ -52,6 +63,8 @@ ASCII = b"abcdefghijklmnopqrstuvwxyzABCDEFGHIJKLMNOPQRSTUVWXYZ0123456789_-+=,@%"
 # bytes that are separators / quoting / globbing characters elsewhere but ordinary in a POSIX file name
 PUNCT = b"\\'\":;*?<>|&$!#()[]{}`~^\t"
 MULTI = ["é", "ü", "ß", "€", "日", "本", "\U0001F600", "Ж", "λ"]
+CTRL = b"\n\r\x01\x1b\x7f\x08"
+INNER = ASCII.replace(b"-", b"")          # for the classes whose first / last character is prescribed
 
 
 def make_name(rnd, n, cls):
@@ -77,6 +90,38 @@ def make_name(rnd, n, cls):
             b = bytes(b)
             if b in (b".", b".."):
                 continue
+        elif cls == "ctrl":
+            b = bytearray(rnd.choice(INNER) for _ in range(n))
+            for _ in range(1 + n // 9):
+                b[rnd.randrange(n)] = rnd.choice(CTRL)
+            b[rnd.randrange(n)] = 0x0a          # always a newline
+            b = bytes(b)
+        elif cls == "lead":
+            b = bytes([rnd.choice(b"-.")]) + bytes(rnd.choice(INNER) for _ in range(n - 1))
+        elif cls == "dots":
+            k = rnd.randrange(3)
+            if k == 0 or n == 3 and rnd.random() < 0.5:
+                b = b"." * n                                                  # "...", "....", ...
+            elif k == 1:
+                b = b".." + bytes(rnd.choice(INNER) for _ in range(n - 2))     # "..x"
+            else:
+                b = bytes(rnd.choice(INNER) for _ in range(n - 1)) + b"."      # "x."
+        elif cls == "delsfx":
+            b = bytes(rnd.choice(INNER) for _ in range(n - 10)) + b" (deleted)"
+        elif cls == "edge":
+            mid = bytes(rnd.choice(INNER) for _ in range(n - 1))
+            b = (b" " + mid) if rnd.random() < 0.5 else (mid + b" ")
+        elif cls == "mb":
+            # multi-byte characters only: n = 2a + 3b + 4c
+            out, left = [], n
+            while left > 0:
+                opts = [m for m in MULTI if len(m.encode()) <= left and left - len(m.encode()) != 1]
+                if not opts:
+                    break
+                ch = rnd.choice(opts).encode()
+                out.append(ch)
+                left -= len(ch)
+            b = b"".join(out)
         elif cls == "utf8":
             out, left = [], n
             while left > 0:
@@ -108,12 +153,16 @@ class Installer:
         self.base_names = [c for c in root.split(b"/") if c]
         self.reserved = ()          # names that must not be used at the top of the root
         self.jail = None            # when set: the root is entered by chroot, paths are relative to it
+        self.bld = None             # name of the build flavour of the helper (recorded in the event for replays)
 
     def materialise(self, row):
         """Create directories/links for one TLC row; returns the job description."""
         comps = row["comps"]
+        given = [bytes.fromhex(x) for x in row["names"]] if row.get("names") else None      # a repeat / replay: the recorded names
         for _ in range(20):
-            names = [make_name(self.rnd, c["len"], c["cls"]) for c in comps]
+            names = given or [make_name(self.rnd, c["len"], c["cls"]) for c in comps]
+            if row["cfg"]["pat"] == "same":                 # the file and every directory above it carry the same name
+                names = [names[0]] * len(names)
             if names[0] in self.reserved:
                 continue
             real = self.root + b"/" + b"/".join(names)
@@ -121,7 +170,10 @@ class Installer:
             try:
                 os.makedirs(d, exist_ok=True)
                 if os.path.lexists(real):
-                    continue
+                    if given and os.path.isfile(real):
+                        os.unlink(real)                     # the same place again, with this installer's helper
+                    else:
+                        continue
                 try:
                     os.link(self.helper, real)
                 except OSError:
@@ -151,8 +203,16 @@ class Installer:
             argv0, cwd, real = strip(argv0), strip(cwd), strip(real)
         else:
             h = [hash30(n) for n in self.base_names + names]
-        ev = {"op": "Run", "k": 1, "a": {"cfg": row["cfg"], "h": h}, "comps": comps}
-        return {"ev": ev, "argv0": argv0, "cwd": cwd, "real": real, "jail": self.jail}
+        if row.get("op") == "Blind":
+            ev = {"op": "Blind", "k": 1, "a": {"cfg": row["cfg"]}, "comps": comps}
+        else:
+            # names: the bytes of the component names below the root (hex), so that a repeat / replay installs the program
+            # under the very same names (a defect may depend on the characters, not only on their class)
+            ev = {"op": "Run", "k": 1, "a": {"cfg": row["cfg"], "h": h}, "comps": comps, "names": [n.hex() for n in names]}
+            if self.bld:
+                ev["bld"] = self.bld
+        return {"ev": ev, "argv0": argv0, "cwd": cwd, "real": real, "jail": self.jail, "fake": via == "fakeargv0",
+                "noproc": row.get("op") == "Blind"}
 
 
 class JailUnavailable(Exception):
@@ -166,27 +226,64 @@ import os, resource, subprocess, sys
 j, cwd, a0 = sys.argv[1:4]
 try:
     os.makedirs(os.path.join(j, "proc"), exist_ok=True)
-    subprocess.check_call(["mount", "-t", "proc", "proc", os.path.join(j, "proc")], stdout=subprocess.DEVNULL)
+    if len(sys.argv) < 5 or sys.argv[4] != "noproc":
+        subprocess.check_call(["mount", "-t", "proc", "proc", os.path.join(j, "proc")], stdout=subprocess.DEVNULL)
     os.chroot(j)
     os.chdir(cwd)
 except Exception as x:
     sys.stderr.write("jail: %s\n" % x)
     sys.exit(97)
-resource.setrlimit(resource.RLIMIT_CPU, (5, 6))
+resource.setrlimit(resource.RLIMIT_CPU, (2, 3))
 os.execv(a0, [a0])
 '''
 
 
+FAKE_ARGV0_SCRIPT = "import os, resource, sys; resource.setrlimit(resource.RLIMIT_CPU, (2, 3)); os.execv(sys.argv[1], ['-not-the-program'])"
+
+
+class Budget:
+    """After MAX_STUCK runs that did not return (each costs its CPU limit) the remaining configurations are not started:
+    the rejections already recorded decide the verdict, and the run must end within the tier's time."""
+    MAX_STUCK = 12
+
+    def __init__(self):
+        self.stuck = 0
+        self.skipped = 0
+        self.lock = threading.Lock()
+
+
+BUDGET = Budget()
+
+
+def run_helper_budgeted(job):
+    with BUDGET.lock:
+        if BUDGET.stuck >= Budget.MAX_STUCK:
+            BUDGET.skipped += 1
+            return None
+    out = run_helper(job)
+    if "did not return" in out[:4000]:
+        with BUDGET.lock:
+            BUDGET.stuck += 1
+    return out
+
+
 def run_helper(job):
     env = dict(os.environ); env.update(core.ASAN_ENV)
+    # unbounded recursion must end at the stack limit, not in the OOM killer (see vlib/tables.py run_harness)
+    env["ASAN_OPTIONS"] = env["ASAN_OPTIONS"].replace("detect_stack_use_after_return=1", "detect_stack_use_after_return=0") + ":hard_rss_limit_mb=4096"
     line = json.dumps(job["ev"], separators=(",", ":")) + "\n"
-    # a call that never returns must not be confused with a slow machine: the child may use 5 s of CPU time
+    # a call that never returns must not be confused with a slow machine: the child may use 2 s of CPU time
     # (it needs milliseconds; `ulimit -t` survives the exec); the wall-clock limit is generous
     if job.get("jail"):
-        cmd = ["unshare", "-m", "--propagation", "private", sys.executable, "-c", JAIL_SCRIPT, job["jail"], job["cwd"], job["argv0"]]
+        cmd = ["unshare", "-m", "--propagation", "private", sys.executable, "-c", JAIL_SCRIPT, job["jail"], job["cwd"], job["argv0"]] + \
+              (["noproc"] if job.get("noproc") else [])
         cwd = None
+    elif job.get("fake"):
+        # argv[0] is an unrelated word (as for a login shell, or a program found through PATH and started by a launcher)
+        cmd = [sys.executable, "-c", FAKE_ARGV0_SCRIPT, job["argv0"]]
+        cwd = job["cwd"]
     else:
-        cmd = ["/bin/sh", "-c", 'ulimit -t 5; exec "$0"', job["argv0"]]
+        cmd = ["/bin/sh", "-c", 'ulimit -t 2; exec "$0"', job["argv0"]]
         cwd = job["cwd"]
     try:
         p = subprocess.run(cmd, input=line.encode(), stdout=subprocess.PIPE, stderr=subprocess.PIPE, cwd=cwd, env=env, timeout=600)
@@ -204,7 +301,7 @@ def run_helper(job):
         if l.startswith('{"op":"Crash"'):
             crash = json.loads(l).get("why", "crash")
     if p.returncode in (-24, -9, 128 + 24, 128 + 9) and crash is None:        # SIGXCPU / SIGKILL from the CPU limit
-        crash = "the call did not return (CPU time limit of 5 s reached)"
+        crash = "the call did not return (CPU time limit of 2 s reached)"
     if crash is None and not (out and out[0].startswith('{"op"')):
         crash = "no output, rc=%d" % p.returncode
     if crash is not None:
@@ -230,17 +327,26 @@ def classify_factory(ctx):
     return classify
 
 
-def build_helper(ctx):
-    helper = os.path.join(ctx.work, "helper")
-    core.build(ctx, os.path.join(HC20, "helper.cpp"), helper)
-    return helper
+FLAVOURS = {"asan": tables.Flavour("asan"), "clangO2": tables.Flavour("clangO2", cxx="clang++", flags=["-O2"])}
 
 
-def rerun(ctx, lines, helper, tag):
-    """Re-materialise the recorded calls (fresh names, fresh directories) and run them again; returns the trace lines."""
+def build_helper(ctx, flavour="asan"):
+    """-> path of the helper in that build flavour, or None after a VIOLATION (the property's functions cannot be called)"""
+    fl = FLAVOURS[flavour or "asan"]
+    return tables.build_driver(ctx, "C20", os.path.join(HC20, "helper.cpp"), os.path.join(ctx.work, "helper_" + fl.name),
+                               os.path.join(HC20, "api_probe.cpp"), flavour=fl)
+
+
+def rerun(ctx, lines, helpers, tag):
+    """Re-materialise the recorded calls (fresh names, fresh directories) and run them again with the helper build they
+    were recorded with; returns the trace lines.  helpers: {build flavour: path}"""
     root = os.path.realpath(os.path.join(ctx.work, "root")).encode()
     os.makedirs(root, exist_ok=True)
-    inst = Installer(ctx, helper.encode(), root, random.Random(ctx.seed * 31 + tag))
+    insts = {}
+    for b, hp in helpers.items():
+        insts[b] = Installer(ctx, hp.encode(), root, random.Random(ctx.seed * 31 + tag))
+        insts[b].bld = b
+    helper = helpers["asan"]
     reset = json.dumps({"op": "Reset", "k": 1, "a": {"base": describe_path(root)}, "res": {"exc": "none"}}, separators=(",", ":"))
     jreset = json.dumps({"op": "Reset", "k": 1, "a": {"base": []}, "res": {"exc": "none"}}, separators=(",", ":"))
     jinst, injail = None, False
@@ -248,7 +354,7 @@ def rerun(ctx, lines, helper, tag):
     for l in lines:
         if l["op"] == "Reset":
             injail = l["a"]["base"] == []           # recorded at the top of a root directory (chroot stage)
-        elif l["op"] == "Run" and injail:
+        elif l["op"] in ("Run", "Blind") and injail:
             if jinst is None:
                 static = os.path.join(ctx.work, "helper_static")
                 rc, o = core.sh([core.CXX] + core.BASE_FLAGS + ["-static", "-I", core.INCLUDE, "-I", os.path.join(core.HARNESS, "common"),
@@ -260,11 +366,12 @@ def rerun(ctx, lines, helper, tag):
                 jinst = Installer(ctx, static.encode(), jail, random.Random(ctx.seed * 31 + tag))
                 jinst.reserved, jinst.jail, jinst.base_names = (b"proc",), jail, []
             try:
-                out += [jreset, run_helper(jinst.materialise({"cfg": l["a"]["cfg"], "comps": l["comps"]}))]
+                out += [jreset, run_helper(jinst.materialise({"op": l["op"], "cfg": l["a"]["cfg"], "comps": l["comps"], "names": l.get("names")}))]
             except JailUnavailable as x:
                 raise MachineryError("this replay needs a chroot, which the platform does not allow: %s" % x)
         elif l["op"] == "Run":
-            out += [reset, run_helper(inst.materialise({"cfg": l["a"]["cfg"], "comps": l["comps"]}))]
+            inst = insts.get(l.get("bld") or "asan", insts["asan"])
+            out += [reset, run_helper(inst.materialise({"cfg": l["a"]["cfg"], "comps": l["comps"], "names": l.get("names")}))]
         elif l["op"] == "Endian":
             out += [reset, run_helper({"ev": {"op": "Endian", "k": 1, "a": {}}, "argv0": helper.encode(), "cwd": ctx.work})]
     return out
@@ -272,8 +379,14 @@ def rerun(ctx, lines, helper, tag):
 
 def replay(ctx, path):
     """./verif replay C20 <file>: re-materialise the recorded configurations (fresh names) and validate."""
+    if path.endswith(".cpp"):
+        return tables.replay_probe(ctx, path, "C20")
     lines = [l for l in core.read_ndjson(path) if "_meta" not in l]
-    out = rerun(ctx, lines, build_helper(ctx), 1)
+    helpers = {b: build_helper(ctx, b) for b in sorted({l.get("bld") or "asan" for l in lines} | {"asan"})}
+    if any(h is None for h in helpers.values()):
+        print("VIOLATION property=C20 replay=%s\n  the helper does not build against this tree" % path)
+        return 1
+    out = rerun(ctx, lines, helpers, 1)
     tp = os.path.join(ctx.work, "replay.ndjson")
     with open(tp, "w") as f:
         f.write("\n".join(out) + "\n")
@@ -347,7 +460,9 @@ def jail_stage(ctx, q, rnd, rootjson):
                                  env={"ROOT": rootjson}, workers=2)
         if "No error has been found" not in r["out"]:
             raise MachineryError("TLC did not complete on InstallPath_jail.cfg, see %s" % r["outfile"])
-        rows = sorted([x for x in emitted(r["out"]) if x["op"] == "Run"], key=lambda x: json.dumps(x["cfg"], sort_keys=True))
+        rows = sorted([x for x in emitted(r["out"]) if x["op"] in ("Run", "Blind")], key=lambda x: (x["op"], json.dumps(x["cfg"], sort_keys=True)))
+        if q:
+            rows = [x for x in rows if x["op"] == "Run" or x["cfg"]["pat"] in ("ascii", "one")]
         inst = Installer(ctx, static.encode(), jail, rnd)
         inst.reserved = (b"proc",)
         inst.jail = jail
@@ -355,11 +470,13 @@ def jail_stage(ctx, q, rnd, rootjson):
         jobs = [inst.materialise(x) for x in rows]
         outs = [run_helper(jobs[0])]                      # the first one tells whether the platform lets us do this
         with ThreadPoolExecutor(max_workers=8) as ex:
-            outs += list(ex.map(run_helper, jobs[1:]))
+            outs += [o for o in ex.map(run_helper_budgeted, jobs[1:]) if o is not None]
         if os.path.ismount(os.path.join(jail, b"proc")):
             raise MachineryError("the private /proc mount of the jail leaked into this mount namespace")
         ctx.notes["jail_configurations"] = len(rows)
-        ctx.log("%d configurations at the top of a root directory run under chroot" % len(rows))
+        ctx.notes["jail_configurations_without_proc"] = sum(1 for x in rows if x["op"] == "Blind")
+        ctx.log("%d configurations at the top of a root directory run under chroot (%d of them without /proc)"
+                % (len(rows), ctx.notes["jail_configurations_without_proc"]))
         return outs
     except JailUnavailable as x:
         ctx.notes["jail_stage"] = "skipped: %s" % str(x)[:300]
@@ -370,7 +487,12 @@ def jail_stage(ctx, q, rnd, rootjson):
 def run(ctx):
     q = ctx.quick
     rnd = random.Random(ctx.seed)
-    helper = build_helper(ctx)
+    with ThreadPoolExecutor(2) as ex:
+        helpers = dict(zip(("asan", "clangO2"), ex.map(lambda b: build_helper(ctx, b), ("asan", "clangO2"))))
+    if any(h is None for h in helpers.values()):      # the functions cannot be called as the property states: reported by build_helper
+        return core.finish(ctx, "exploration", rule="the helper does not build against this tree; nothing was run", assumptions=[], exhaustive=False)
+    helper = helpers["asan"]
+    ctx.notes["build_flavours"] = {"asan": core.CXX + " -O1 -fsanitize=address", "clangO2": "clang++ -O2 -fsanitize=address (every third configuration)"}
     root = os.path.realpath(os.path.join(ctx.work, "root")).encode()
     os.makedirs(root, exist_ok=True)
     base = describe_path(root)
@@ -406,13 +528,20 @@ def run(ctx):
 
     # ---- 2. materialise and run
     inst = Installer(ctx, helper.encode(), root, rnd)
+    inst.bld = "asan"
+    inst2 = Installer(ctx, helpers["clangO2"].encode(), root, rnd)
+    inst2.bld = "clangO2"
+    inst2.used_links = inst.used_links
     runs.sort(key=lambda x: json.dumps(x["cfg"], sort_keys=True))
-    jobs = [inst.materialise(x) for x in runs]
+    jobs = [(inst2 if i % 3 == 2 else inst).materialise(x) for i, x in enumerate(runs)]
     for j, x in zip(jobs, runs):
         if len(j["real"]) != x["res"]["bytes"]:
             raise MachineryError("materialised path has %d bytes, the spec computed %d" % (len(j["real"]), x["res"]["bytes"]))
     with ThreadPoolExecutor(max_workers=8) as ex:
-        outs = list(ex.map(run_helper, jobs))
+        outs = [o for o in ex.map(run_helper_budgeted, jobs) if o is not None]
+    if BUDGET.skipped:
+        ctx.notes["configurations_not_started"] = BUDGET.skipped
+        ctx.log("%d runs did not return; the remaining %d configurations were not started" % (BUDGET.stuck, BUDGET.skipped))
     # ---- 2b. programs installed at the top of a root directory: /x (no grandparent), /d/x, /a/b/x -- inside a chroot
     jail_outs = jail_stage(ctx, q, rnd, rootjson)
 
@@ -449,7 +578,7 @@ def run(ctx):
     # a rejection is reported only if it repeats: re-materialise the first rejected configuration (new names), run, validate
     if len(ctx.violations) > nv0:
         rp = ctx.violations[nv0][0]
-        again = rerun(ctx, [l for l in core.read_ndjson(rp) if "_meta" not in l], helper, 2)
+        again = rerun(ctx, [l for l in core.read_ndjson(rp) if "_meta" not in l], helpers, 2)
         if again:
             p2 = os.path.join(tdir, "repeat.ndjson")
             with open(p2, "w") as f:
@@ -465,14 +594,22 @@ def run(ctx):
     return core.finish(
         ctx, "exploration",
         rule="every configuration TLC enumerates for the measured scratch root (%d bytes): short paths of depth %s and paths of "
-             "EXACTLY %s bytes (depth = minimum needed + %s), components <= 255 bytes, character-class patterns %s, started %s; "
-             "one helper run per configuration, each described per component (length, class, 30-bit hash) and compared by TLC with "
-             "the spec's component lists; names are drawn from VERIF_SEED. endianness(): one run, compared with the memory image of "
-             "0x01020304 the helper reads itself."
+             "EXACTLY %s bytes (depth = minimum needed + %s), components <= 255 bytes, name patterns %s (odd = control characters incl. "
+             "newline / leading '-' or '.' / '...', '..x', trailing '.' / multi-byte characters only / ending in ' (deleted)' / leading or "
+             "trailing blank; same = the file and all its directories carry one name; one = single-character names), started %s; "
+             "one helper run per configuration (two builds of the helper), both functions called twice with a chdir in between, each "
+             "returned string described per component (length, class, 30-bit hash) and compared by TLC with the spec's component "
+             "lists; names are drawn from VERIF_SEED. endianness(): one run, compared with the memory image of 0x01020304 the helper "
+             "reads itself."
              % (len(root), "1,2,6" if q else "1..6", sorted({x["cfg"]["total"] for x in runs if x["cfg"]["total"]}),
-                "{0,3}" if q else "{0,1,5}", "{ascii, punct, mixed}" if q else "{ascii, space, utf8, dot, punct, mixed}",
-                "{directly, through a file symlink}" if q else "{directly, by a relative path, through a file symlink, through a directory symlink}"),
-        assumptions=["Linux: /proc/self/exe names the running image (the resolved file, not the symlink used to start it)",
+                "{0,3}" if q else "{0,1,5}", sorted({x["cfg"]["pat"] for x in runs}),
+                sorted({x["cfg"]["via"] for x in runs})),
+        assumptions=["Linux with /proc mounted: /proc/self/exe names the running image (the resolved file, not the symlink used to start it, "
+                     "whatever argv[0] says). Without /proc the statement promises nothing (the functions cannot know); the chroot stage "
+                     "only checks that the calls return without a sanitizer report there",
+                     "an executable UNLINKED while it runs is no longer 'installed at' a path: the statement does not say what is returned "
+                     "(the kernel appends ' (deleted)'); not checked. A program whose real name ENDS in ' (deleted)' is installed at that "
+                     "path and must be reported exactly (class delsfx)",
                      "AddressSanitizer is the observer for 'does not read or write outside its buffer' (a report ends the trace with a Crash event)",
                      "the executable always has a grandparent directory here (the scratch root is 4 levels deep); /x and /d/x are not reachable without a chroot",
                      "paths longer than PATH_MAX-1 (reachable only by relative exec) and non-Linux branches are not explored"],
